@@ -2,7 +2,7 @@
 //! Pattern p --(reference bit writer)--> buffer --dfs::X::decode--> value
 //!           --dfs::X::encode--> buffer --(reference bit reader)--> p'
 
-use crate::fields::{Dec, FErr, FieldDef, FIELDS, N_FIELDS_SCANNED};
+use crate::fields::{Dec, FieldDef, FIELDS, N_FIELDS_SCANNED};
 use crate::mon::{guard, Ctx};
 use crate::oracle::bits;
 use crate::oracle::crc;
